@@ -1,6 +1,7 @@
 import H2V.Lemmas.ConnCountsPLocal
 import H2V.Lemmas.ConnCountsPWitness
 import H2V.Lemmas.ConnCountsPFree
+import H2V.Lemmas.ConnCountsPConn
 /-
   C05 — concurrent-stream limits are honoured in both directions and slots are recycled.
   Property theorems only (lemmas: `H2V/Lemmas/ConnCountsP*.lean`, notes: `ConnCountsPNOTES.md`).
@@ -157,6 +158,25 @@ example : let s : Streams := { counts := { isServer := true, maxRecvStreams := 0
     s.counts.isServer = true ∧ ¬ h.sid > s.recv.maxStreamId ∧ s.store.findKey? h.sid = none ∧ s.recv.refused = none ∧
     s.recv.nextStreamId = some 1 ∧ 1 ≤ h.sid ∧ h.sid % 2 = 1 ∧ s.counts.canIncNumRecvStreams = false := by decide
 
+/-- **A pushed response beyond the limit is refused, not counted.**  A client counts a promised
+    stream only when its response HEADERS arrives (`Recv::recv_headers`, the stream leaves
+    `ReservedRemote`).  If by then `num_recv_streams` has reached the client's own
+    `max_concurrent_streams`, the stream is refused with the stream error `REFUSED_STREAM`; the
+    counters stay as they are and no `assert!` fires (the real code used to panic here with
+    "assertion failed: self.can_inc_num_recv_streams()"; fix F31). -/
+theorem pushed_response_beyond_limit_is_refused (s : Streams) (id : Nat) (h : HeadersIn) (x : Stream) (st' : State)
+    (hx : s.store.get? id = some x) (ho : x.state.recvOpen h.eos h.isInformational = (st', .ok true))
+    (hc : x.isCounted = false) (hfull : s.counts.canIncNumRecvStreams = false) :
+    (s.recvRecvHeaders id h).2 = .state (PErr.libraryReset x.id REFUSED_STREAM) ∧
+    (s.recvRecvHeaders id h).1.counts = s.counts ∧ (s.recvRecvHeaders id h).1.panicked = s.panicked :=
+  recvRecvHeaders_refuses s id h x st' hx ho hc hfull
+
+/-- non-vacuity: a client with `max_concurrent_streams = 0` and a reserved promised stream 2 -/
+example : let s : Streams := { counts := { maxRecvStreams := 0 }, store := { slab := [{ key := 0, id := 2, state := { inner := .reservedRemote } }], ids := [(2, 0)], nextKey := 1 } }
+    let h : HeadersIn := { sid := 2, eos := false, status := some (Http.str "200") }
+    ∃ x st', s.store.get? 0 = some x ∧ x.state.recvOpen h.eos h.isInformational = (st', .ok true) ∧ x.isCounted = false ∧
+      s.counts.canIncNumRecvStreams = false := ⟨_, _, rfl, rfl, rfl, by decide⟩
+
 /-- **Closing frees the slot.**  `Counts::transition_after` — what every stream-touching operation
     ends with — on a stream that is closed in both directions with nothing left to send
     (`Stream::is_closed`), counted, and not merely *scheduled* for its implicit RST_STREAM: exactly one
@@ -189,6 +209,26 @@ theorem freed_slot_is_taken (s : Streams) (k : Nat) (rest : List Nat) (hc : s.co
 /-- non-vacuity -/
 example : ({ counts := { maxSendStreams := 1 }, actions := { send := { prioritize := { pendingOpen := [0] } } } } : Streams).counts.canIncNumSendStreams = true := by decide
 
+/-- **The limits hold in every state of a running connection.**  `ConnReach c`: the connection
+    state `c` is reachable from a freshly built client or server connection (any builder
+    configuration) by any sequence of: polls of the connection future (`client::Connection::poll`,
+    `proto::Connection::poll`: reading and handling every frame the peer sent — whatever bytes are
+    in the transport —, SETTINGS, GOAWAY, writing), single received frames, the user's calls on the
+    connection (graceful/abrupt shutdown, window sizes, ping) and on any stream handle, and
+    arbitrary changes of everything but the stream state (bytes arriving, write budget, wakers).
+    It is PROVED (`ConnReach.reach`, `ConnCountsPConn.lean`) that the connection loop calls nothing but
+    the functions `Reach` is closed under.  In every such state in which no `assert!` has fired: the
+    number of counted peer-initiated streams is within the advertised limit, and the two counters
+    together are exactly the number of counted slab entries. -/
+theorem limits_hold_in_every_connection_state {c : Conn} (h : ConnReach c) (hp : c.streams.panicked = none) :
+    c.streams.counts.numRecvStreams ≤ c.streams.counts.maxRecvStreams ∧
+    c.streams.counts.numSendStreams + c.streams.counts.numRecvStreams = cntAll c.streams :=
+  ⟨advertised_limit_is_never_exceeded h.reach hp, slots_are_accounted_everywhere h.reach hp⟩
+
+/-- non-vacuity: a fresh client after its first `poll` -/
+example : ConnReach ((Conn.init {}).clientPoll 50).1 ∧ ((Conn.init {}).clientPoll 50).1.streams.panicked = none :=
+  ⟨.step (.client {} rfl) (.clientPoll 50 _), by decide +kernel⟩
+
 #print axioms requests_wait_at_limit
 #print axioms open_takes_free_slot
 #print axioms excess_stream_is_refused
@@ -198,7 +238,9 @@ example : ({ counts := { maxSendStreams := 1 }, actions := { send := { prioritiz
 #print axioms slots_are_accounted_per_direction
 #print axioms open_respects_peer_limit
 #print axioms excess_request_never_reaches_application
+#print axioms pushed_response_beyond_limit_is_refused
 #print axioms closing_frees_the_slot
 #print axioms freed_slot_is_taken
+#print axioms limits_hold_in_every_connection_state
 
 end H2V.Props.C05
